@@ -147,6 +147,154 @@ def _rename_locals(src, keep):
     return out
 
 
+def _ast_twin(src, kind):
+    """Behaviour-preserving whole-file rewrites a maintainer (or a formatter / linter autofix) could make:
+
+    flip-if-else      if c: A else: B            ->  if not c: B else: A
+    compare-spelling  a != b / a is not b / a not in b  ->  not a == b / not a is b / not a in b;
+                      a > b, a >= b              ->  b < a, b <= a   (only when neither side contains a call)
+    else-after-jump   if c: ...return/raise/continue/break  followed by REST (same block, no else)
+                      ->  if c: ... else: REST
+    """
+    import ast
+    tree = ast.parse(src)
+
+    def has_call(e):
+        return any(isinstance(x, (ast.Call, ast.Await, ast.Yield, ast.YieldFrom, ast.NamedExpr)) for x in ast.walk(e))
+
+    class Flip(ast.NodeTransformer):
+        def visit_If(self, node):
+            self.generic_visit(node)
+            if node.orelse:
+                node.test, node.body, node.orelse = ast.UnaryOp(ast.Not(), node.test), node.orelse, node.body
+            return node
+
+    class Cmp(ast.NodeTransformer):
+        def visit_Compare(self, node):
+            self.generic_visit(node)
+            if len(node.ops) != 1:
+                return node
+            op, a, b = node.ops[0], node.left, node.comparators[0]
+            pos = {ast.NotEq: ast.Eq, ast.IsNot: ast.Is, ast.NotIn: ast.In}.get(type(op))
+            if pos is not None:
+                return ast.UnaryOp(ast.Not(), ast.Compare(a, [pos()], [b]))
+            sw = {ast.Gt: ast.Lt, ast.GtE: ast.LtE}.get(type(op))
+            if sw is not None and not has_call(a) and not has_call(b):
+                return ast.Compare(b, [sw()], [a])
+            return node
+
+    def jumps(body):
+        last = body[-1]
+        if isinstance(last, (ast.Return, ast.Raise, ast.Continue, ast.Break)):
+            return True
+        if isinstance(last, ast.If) and last.orelse:
+            return jumps(last.body) and jumps(last.orelse)
+        return False
+
+    def else_after_jump(body):
+        for i, st in enumerate(body):
+            for fld in ('body', 'orelse', 'finalbody'):
+                sub = getattr(st, fld, None)
+                if isinstance(sub, list) and sub and isinstance(sub[0], ast.stmt):
+                    else_after_jump(sub)
+            for h in getattr(st, 'handlers', []):
+                else_after_jump(h.body)
+            if isinstance(st, ast.If) and not st.orelse and jumps(st.body) and i + 1 < len(body):
+                rest = body[i + 1:]
+                # a def/class in REST would change scoping of nothing, but keep it simple: statements only
+                if all(not isinstance(r, (ast.FunctionDef, ast.AsyncFunctionDef, ast.ClassDef)) for r in rest):
+                    st.orelse = rest
+                    del body[i + 1:]
+                    else_after_jump(st.orelse)
+                    return
+
+    LOGGERS = {'debug', 'info', 'util.debug', 'util.info', 'util.sub_debug', 'sub_debug'}
+
+    def is_log(st):
+        return isinstance(st, ast.Expr) and isinstance(st.value, ast.Call) and ast.unparse(st.value.func) in LOGGERS
+
+    def blocks(node):
+        for n in ast.walk(node):
+            for fld in ('body', 'orelse', 'finalbody'):
+                sub = getattr(n, fld, None)
+                if isinstance(sub, list) and sub and isinstance(sub[0], ast.stmt):
+                    yield sub
+
+    class SplitAnd(ast.NodeTransformer):
+        def visit_If(self, node):
+            self.generic_visit(node)
+            if not node.orelse and isinstance(node.test, ast.BoolOp) and isinstance(node.test.op, ast.And):
+                vals = node.test.values
+                inner = ast.If(vals[-1], node.body, [])
+                for v in reversed(vals[1:-1]):
+                    inner = ast.If(v, [inner], [])
+                node.test, node.body = vals[0], [inner]
+            return node
+
+    class JoinIf(ast.NodeTransformer):
+        def visit_If(self, node):
+            self.generic_visit(node)
+            if not node.orelse and len(node.body) == 1 and isinstance(node.body[0], ast.If) and not node.body[0].orelse:
+                inner = node.body[0]
+                node.test = ast.BoolOp(ast.And(), [node.test, inner.test])
+                node.body = inner.body
+            return node
+
+    def split_tuple_assign(body):
+        out = []
+        for st in body:
+            if isinstance(st, ast.Assign) and len(st.targets) == 1 and isinstance(st.targets[0], ast.Tuple) and \
+                    isinstance(st.value, ast.Tuple) and len(st.value.elts) == len(st.targets[0].elts) and \
+                    not any(isinstance(e, ast.Starred) for e in st.targets[0].elts + st.value.elts):
+                tnames = {ast.unparse(x) for t in st.targets[0].elts for x in ast.walk(t)
+                          if isinstance(x, (ast.Name, ast.Attribute, ast.Subscript))}
+                vnames = {ast.unparse(x) for v in st.value.elts for x in ast.walk(v)
+                          if isinstance(x, (ast.Name, ast.Attribute, ast.Subscript))}
+                if not (tnames & vnames) and not any(has_call(v) for v in st.value.elts):
+                    out.extend(ast.Assign([t], v) for t, v in zip(st.targets[0].elts, st.value.elts))
+                    continue
+            out.append(st)
+        body[:] = out
+
+    if kind == 'auto-split-and':
+        tree = SplitAnd().visit(tree)
+    elif kind == 'auto-join-nested-if':
+        tree = JoinIf().visit(tree)
+    elif kind == 'auto-tuple-assign-split':
+        for b in list(blocks(tree)):
+            split_tuple_assign(b)
+    elif kind == 'auto-strip-logging':
+        for b in list(blocks(tree)):
+            kept = [st for st in b if not is_log(st)]
+            b[:] = kept or [ast.Pass()]
+    elif kind == 'auto-log-at-entry':
+        bound = {(al.asname or al.name) for n in tree.body if isinstance(n, ast.ImportFrom) for al in n.names}
+        if 'debug' in bound:
+            for n in ast.walk(tree):
+                if isinstance(n, (ast.FunctionDef, ast.AsyncFunctionDef)) and n.name != 'debug':
+                    i = 1 if (n.body and isinstance(n.body[0], ast.Expr) and isinstance(n.body[0].value, ast.Constant)
+                              and isinstance(n.body[0].value.value, str)) else 0
+                    n.body.insert(i, ast.Expr(ast.Call(ast.Name('debug', ast.Load()),
+                                                       [ast.Constant('enter %s' % n.name)], [])))
+    if kind == 'auto-flip-if-else':
+        tree = Flip().visit(tree)
+    elif kind == 'auto-compare-spelling':
+        tree = Cmp().visit(tree)
+    elif kind == 'auto-else-after-jump':
+        for n in ast.walk(tree):
+            if isinstance(n, (ast.FunctionDef, ast.AsyncFunctionDef)):
+                else_after_jump(n.body)
+    ast.fix_missing_locations(tree)
+    out = ast.unparse(tree)
+    compile(out, '<twin>', 'exec')
+    return out
+
+
+AUTO_TWINS = ('auto-reformat', 'auto-rename-locals', 'auto-flip-if-else', 'auto-compare-spelling',
+              'auto-else-after-jump', 'auto-split-and', 'auto-join-nested-if', 'auto-tuple-assign-split',
+              'auto-strip-logging', 'auto-log-at-entry')
+
+
 def _auto_twin(args):
     """whole-package twins: 'reformat' (ast.unparse of every file: comments, layout, quotes and
     parentheses change) and 'rename-locals' (every local not listed as an anchor is renamed)."""
@@ -160,6 +308,8 @@ def _auto_twin(args):
                 src = f.read()
             if name == 'auto-reformat':
                 overlay[rel] = ast.unparse(ast.parse(src))
+            elif name != 'auto-rename-locals':
+                overlay[rel] = _ast_twin(src, name)
             else:
                 overlay[rel] = _rename_locals(src, anchored.get(rel, {}))
         v = _violations(repo, prop, overlay)
@@ -180,7 +330,7 @@ def run_selftest(prop, repo='/repo', seed=0, jobs=None):
     base = _violations(repo, prop)
     work = [(repo, prop, 'mutant', m, base) for m in mutants] + \
            [(repo, prop, 'twin', t, base) for t in twins]
-    auto = [(repo, prop, 'auto-reformat', base), (repo, prop, 'auto-rename-locals', base)]
+    auto = [(repo, prop, name, base) for name in AUTO_TWINS]
     results = []
     jobs = jobs or min(16, os.cpu_count() or 1)
     if len(work) > 4 and jobs > 1:
